@@ -161,6 +161,30 @@ def witnesses() -> list:
         )
     w += [
         (
+            'C13-aggregator-as4-aggregator',
+            'corpus-render',
+            ['json:update:duplicate-key:attribute.aggregator'],
+            'AGGREGATOR (7) and AS4_AGGREGATOR (18) are both rendered under the key "aggregator" (AttributeCollection.representation): an UPDATE carrying both, '
+            'which is what RFC 6793 has an OLD speaker relay, gives the key twice in "attribute"',
+            {
+                'type': 2,
+                'body': build.update_body(
+                    b'',
+                    build.attribute(0x40, 1, b'\x00')
+                    + build.attribute(0x40, 2, build.aspath([(2, [65001])], False))
+                    + build.attribute(0x40, 3, build.ip('10.0.0.2'))
+                    + build.attribute(0xC0, 7, struct.pack('!H', 23456) + build.ip('10.0.0.9'))
+                    + build.attribute(0xC0, 18, struct.pack('!L', 70000) + build.ip('10.0.0.9')),
+                    hostile.BASE_NLRI,
+                ).hex(),
+                'asn4': False,
+                'addpath': False,
+                'extnh': False,
+                'seed': 'witness',
+                'ops': ['witness'],
+            },
+        ),
+        (
             'C13-bgpls-bandwidth-nan',
             'corpus-render',
             ['json:update:non-json-number:attribute.bgp-ls.*'],
@@ -169,6 +193,19 @@ def witnesses() -> list:
         ),
     ]
     return w
+
+
+def variants() -> list:
+    """the same root causes met through the sibling object (L2 service for L3 service, the other bandwidth TLVs): (finding id, engine, case)"""
+    return [
+        ('C13-srv6-sub-sub-tlv-unparseable', 'corpus-render', prefix_sid(_tlv12(6, b'\x00' + _tlv12(1, SID + _tlv12(7, b'\xab'))))),
+        ('C13-srv6-sid-structure-repeated', 'corpus-render', prefix_sid(_tlv12(6, b'\x00' + _tlv12(1, SID + STRUCTURE + STRUCTURE)))),
+        ('C13-prefix-sid-service-repeated', 'corpus-render', prefix_sid(_tlv12(6, b'\x00' + _tlv12(1, SID)) * 2)),
+        ('C13-bgpls-bandwidth-nan', 'corpus-render', bgpls(struct.pack('!HH', 1090, 4) + b'\x7f\x80\x00\x00')),
+        ('C13-bgpls-bandwidth-nan', 'corpus-render', bgpls(struct.pack('!HH', 1091, 32) + b'\xff\xc0\x00\x00' * 8)),
+        ('C13-text-non-ascii-update', 'hostile-strings', {'kind': 'sr-policy', 'slots': [{'label': 'sr-policy-name', 'hex': 'c3a9', 'sub': 130}], 'shape': 'sr-policy-nlri'}),
+        ('C13-text-non-ascii-open', 'hostile-strings', {'kind': 'open', 'slots': [{'label': 'software-version', 'hex': 'e6bca2'}], 'grouping': 'one', 'asn4': True, 'operational': False, 'gr': False}),
+    ]
 
 
 def fixed_witnesses() -> list:
@@ -194,7 +231,7 @@ def fixed_witnesses() -> list:
 
 
 def cases_for(engine: str) -> list:
-    return [case for _id, eng, _sigs, _what, case in witnesses() if eng == engine] + [f[5] for f in fixed_witnesses() if f[1] == engine]
+    return [case for _id, eng, _sigs, _what, case in witnesses() if eng == engine] + [v[2] for v in variants() if v[1] == engine] + [f[5] for f in fixed_witnesses() if f[1] == engine]
 
 
 def entries() -> list:
@@ -210,7 +247,9 @@ if __name__ == '__main__':
         from props import c13
         from vlib.runner import Violation
 
-        for wid, engine, sigs, _what, case in witnesses():
+        by_id = {w[0]: w for w in witnesses()}
+        todo = [(w[0], w[1], w[2], w[4]) for w in witnesses()] + [(f'{v[0]} (variant)', v[1], by_id[v[0]][2], v[2]) for v in variants()]
+        for wid, engine, sigs, case in todo:
             eng = next(x for x in c13.ENGINES if x.name == engine)
             try:
                 eng.check(case)
